@@ -34,6 +34,35 @@ def examine(case):
     return hjsearch.replay(case)
 
 
+def shrink(bucket):
+    """ddmin over the calls of the history (the athletes' add calls stay): drop calls while the same signature fails."""
+    case = bucket['case']
+    sig = bucket['sig']
+    if case.get('kind') != 'history':
+        return None
+    calls = list(case['calls'])
+    n = len(case['bibs'])
+    extra = {k: v for k, v in case.items() if k not in ('calls',)}
+
+    def fails(cs):
+        return any(v['sig'] == sig for v in examine(dict(extra, calls=cs)))
+    changed = True
+    budget = 4000
+    while changed and budget > 0:
+        changed = False
+        for i in range(len(calls) - 1, n - 1, -1):
+            budget -= 1
+            t = calls[:i] + calls[i + 1:]
+            if fails(t):
+                calls = t
+                changed = True
+                break
+    if len(calls) < len(case['calls']):
+        v = [v for v in examine(dict(extra, calls=calls)) if v['sig'] == sig][0]
+        return {'case': v['case'], 'observed': v['observed']}
+    return None
+
+
 def nontrivial_features(hist, m):
     """Features of a history used by the non-triviality rule."""
     f = set()
@@ -137,7 +166,7 @@ def shard_plays(ctx, payload):
         # one play in six hands the bar heights over as floats (1 cm and 5 cm steps): callers do, and 2.01 is not
         # exactly representable - the rules are about the heights, not about their binary representation
         fh = (i % 6 == 5)
-        hjplay.random_play(rng.randrange, on_call, noise=20, nmin=1, float_heights=fh)
+        hjplay.random_play(rng.randrange, on_call, noise=20, nmin=1, float_heights=fh, tail=40)
         ctx.label('play-float-heights' if fh else 'play')
 
 
@@ -155,6 +184,7 @@ def make_machine(ctx):
         def setup(self, n, noise, data):
             self.data = data
             self.p = hjplay.Player(n, on_call, noise, lambda k: data.draw(st.integers(0, k - 1)))
+            self.p.tail = 25
             ctx.label('machine')
 
         def _draw(self, data):
